@@ -63,7 +63,7 @@ func (Engine) Describe() simcore.Description {
 	return simcore.Description{
 		Real: []string{"full OsmosisApp behind the real BaseApp entry points: InitChain, FinalizeBlock (pre-blocker, begin-blocker incl. epochs/mint/incentives/txfees/superfluid hooks, tx decoding, ante handler with signature verification, fee deduction and sequence numbers, message router, protorev post handler, end-blocker), Commit (IAVL), CheckTx and Simulate; app.ExportAppStateAndValidators and module-manager genesis export/import; SDK gas metering; secp256k1 SIGN_MODE_DIRECT transactions"},
 		Stub: []string{"CometBFT consensus and p2p (the simulator is the proposer: it chooses height, header time, tx order, proposer and last-commit votes)", "wall clock (header time only)"},
-		Rule: "one run = 4-6 funded accounts, 2-3 validators, shortened epochs (hour 30s, day 100s, week 450s; mint/incentives/superfluid tick on 'day'), 15-40 blocks of 0-4 signed transactions (bank, gamm, poolmanager incl. multi-hop and split routes, concentrated liquidity, lockup, incentives, tokenfactory, staking/distribution, superfluid) with plan-drawn gas limits (generous, or a fraction of the simulated gas use so that out-of-gas hits inside ante or message execution), fees (sufficient / one short / none / wrong denom), sequence numbers (right / future / replayed), occasional second message that fails, irregular header times crossing epoch boundaries, missing validator votes, bursts of empty blocks to the next height divisible by 120. Replica A is the reference and additionally serves Simulate calls; B runs the same stream on an independent application object and disk and additionally sees every tx in CheckTx; C (odd runs) restarts between blocks and crashes between FinalizeBlock and Commit at seeded points; D (most odd runs) is initialised from A's export at a seeded block and then fed the same suffix. Half of the runs list pool 1's shares as a superfluid asset; 30% let the mint module reduce its provisions every 3 epochs; swaps through the next, not yet existing pool id probe the in-memory pool-route cache. Every Go map iteration inside the application draws its own order on every replica.",
+		Rule: "one run = 4-6 funded accounts, 2-3 validators, shortened epochs (hour 30s, day 100s, week 450s; mint/incentives/superfluid tick on 'day'), 15-40 blocks of 0-4 signed transactions (bank, gamm, poolmanager incl. multi-hop and split routes, concentrated liquidity, lockup, incentives, tokenfactory, staking/distribution, superfluid) with plan-drawn gas limits (generous, or a fraction of the simulated gas use so that out-of-gas hits inside ante or message execution), fees (sufficient / one short / none / wrong denom), sequence numbers (right / future / replayed), occasional second message that fails, irregular header times crossing epoch boundaries, missing validator votes, bursts of empty blocks to the next height divisible by 120. Replica A is the reference and additionally serves Simulate calls; B runs the same stream on an independent application object and disk and additionally sees every tx in CheckTx; C (odd runs) restarts between blocks and crashes between FinalizeBlock and Commit at seeded points; D (most odd runs) is initialised from A's export at a seeded block and then fed the same suffix. Half of the runs list pool 1's shares as a superfluid asset; 30% let the mint module reduce its provisions every 3 epochs; swaps through the next, not yet existing pool id probe the in-memory pool-route cache. 60% of the runs use the \"rich\" profile: module genesis states away from their defaults (taker-fee distribution with burn shares, poolmanager / txfees / protorev / lockup administrators = account 0, reduced-fee and creator white lists, pair taker fees, twap keep period 150 s with hourly pruning, developer reward receivers, tokenfactory creation fee or gas, CL migration thresholds and uptimes, smart accounts active) and 16 further transaction kinds (administrator-signed: pair taker fee, fee tokens, protorev settings, forced unlock; lock extension and reward receiver, position top-up and transfer, stableswap pools, single-asset joins and exits, validator-set preferences and delegation through them, smart-account authenticators); fees are sometimes paid in a registered non-base fee token. Every Go map iteration inside the application draws its own order on every replica.",
 		Assumptions: []string{
 			"Compared between A, B and C after every block: app hash; per transaction code, codespace, data, gas wanted, gas used, events (type, attribute keys and values, order). Not compared: the log string (CometBFT declares it non-deterministic; BaseApp puts a Go stack trace with goroutine ids and pointers into it for recovered panics), begin/end-block events and validator updates (the property speaks of committed state and of per-transaction results; differences there are counted under other_counters info/block-events-differ and info/validator-updates-differ instead).",
 			"Compared between A and the replica D forked from A's export: (1) D must accept the export, first with default flags, then with --x-crisis-skip-assert-invariants; (2) per module, the canonicalised JSON (object keys sorted, arrays in order; a pure permutation of an array is reported once as <order>) of D's export right after InitChain and of A's export at the fork height; (3) three keeper queries over state that no module's genesis carries faithfully (found by diffing the raw stores of A and D): protorev's pool for a denom pair, pool-incentives' pool for a no-lock gauge, bank supply with offsets; (4) per transaction of the common suffix code, codespace, data and events; (5) per module the exports of both at the end of the run. When (2) or (3) shows that the import was not faithful in a way that can steer execution, (4) and (5) are skipped for that run (their premise is gone). Not compared between A and D: app hash (IAVL tree shape and node versions depend on insertion history, which an import does not preserve) and gas (charged per raw store access; an import does not preserve store entries outside any module's genesis, e.g. the wasm TX counter, staking historical info); a suffix transaction that runs out of gas on one side only ends the A/D comparison of that run (counted, not judged).",
